@@ -104,8 +104,18 @@ def build(rnd, tier, flags):
                          kwcase=r.chance(50), namecase=r.chance(40), blanks=r.chance(30),
                          names=gen.ALL_NAMES, excl=set(flags))
     lay = layout.free_layout(flat, rnd, lo)
+    laid = lay.text
+    if r.chance(15):
+        # indentation axis "every line starts with a tab": the form is then recognised only through a trailing '&'
+        # (sourceinfo.get_source_info_str), so the variant is built only when some code line ends in '&'
+        ls = laid.split("\n")
+        code = [x.rstrip() for x in ls if x.strip() and x.lstrip()[:1] not in "!#"]
+        if (any(x.endswith("&") for x in code) and max(len(x) for x in ls) < 130
+                and not any(x.lstrip()[:1] == "#" or "\r" in x or "\f" in x for x in ls)):
+            laid = "\n".join(("\t" + x.lstrip(" ")) if x.strip() else x for x in ls)
+            lay.features.add("tab_all")
     meta["features"] = sorted(lay.features)
-    case = {"canonical": gen.canonical_source(flat), "laid": lay.text, "std": std,
+    case = {"canonical": gen.canonical_source(flat), "laid": laid, "std": std,
             "names": lay.name_map if lo.namecase else {}, "meta": meta, "groups": progs.groups_of(flat, lay),
             "process_directives": False}   # process_directives forces comments to be kept (by design): not C04's configuration
     return case, progs.excluded_counts(g, lay)
